@@ -1243,3 +1243,94 @@ def rule_fast_tokens(ctx):
                   "the fast engine is called with %s: its tokens or rows differ from the reference engine's (e.g. delimiter='\\t' turns "
                   "a leading/trailing tab into an extra NaN column)" % ", ".join(bad))
     ctx.floor("DATA.FAST-TOKENS", 1)
+
+
+def rule_options_readonly(ctx):
+    """WR.OPTIONS-READONLY: the presentation options of writer.write that its nested helpers read (fmt, column_fmt, spacer,
+    widths ...) keep the caller's value for the whole call: they are not re-bound inside a loop (the nested helpers see the
+    variable, not a snapshot - a loop that reuses the name `fmt` changes the default format of every later column)"""
+    p = ctx.p
+    fw = p.func("writer.write")
+    params = set(fw.params())
+    captured = set()
+    first_def = {}
+    for nm, nf in fw.nested.items():
+        if isinstance(nf.node, ast.Lambda):
+            body_nodes = ast.walk(nf.node.body)
+            own = {a.arg for a in nf.node.args.args}
+        else:
+            body_nodes = [x for st in nf.node.body for x in ast.walk(st)]     # defaults are evaluated once, at definition time
+            own = set(nf.params()) | {t.id for x in ast.walk(nf.node) if isinstance(x, ast.Assign) for t in x.targets if isinstance(t, ast.Name)}
+        for x in body_nodes:
+            if isinstance(x, ast.Name) and isinstance(x.ctx, ast.Load) and x.id in params and x.id not in own:
+                captured.add(x.id)
+                first_def[x.id] = min(first_def.get(x.id, 10 ** 9), nf.node.lineno)
+    n = 0
+    for nm in sorted(captured):
+        n += 1
+        rebinds = []
+        for sub in walk_shallow(fw.node):
+            tg = []
+            if isinstance(sub, (ast.Assign, ast.AugAssign)):
+                tg = sub.targets if isinstance(sub, ast.Assign) else [sub.target]
+            elif isinstance(sub, ast.For):
+                tg = [sub.target]
+            for t in tg:
+                for x in ast.walk(t):
+                    if isinstance(x, ast.Name) and x.id == nm and isinstance(x.ctx, ast.Store):
+                        in_loop = isinstance(sub, ast.For) or enclosing(sub, (ast.For, ast.While)) is not None
+                        # deriving a default before the helpers exist is fine; what matters is a re-binding the helpers can observe
+                        if in_loop and sub.lineno > first_def.get(nm, 10 ** 9):
+                            rebinds.append(sub)
+        ctx.check(not rebinds, "WR.OPTIONS-READONLY", "writer.write#option(%s)" % nm, fw, rebinds[0] if rebinds else fw.node,
+                  "option `%s` (read by nested helpers) is not re-bound inside a loop" % nm,
+                  "`%s` re-binds the option `%s` inside a loop while nested helpers read it as the caller's setting: after the loop "
+                  "they see the last value (e.g. the last column's format becomes the default format of every column)"
+                  % (unparse(rebinds[0])[:70] if rebinds else "", nm))
+    if n == 0:
+        ctx.undecided("WR.OPTIONS-READONLY", "writer.write#options", fw, fw.node, "no nested helper of writer.write reads an option")
+    ctx.floor("WR.OPTIONS-READONLY", 0)
+
+
+def rule_engine_select(ctx):
+    """DATA.ENGINE-SELECT: a file that declares WRAP YES is read by the reference (normal) engine: the fast engine takes every
+    physical line for a row, so a wrapped file whose lines happen to be equally long would be read with lines as rows.
+    The switch to engine = "normal" is controlled by a disjunction that contains `<WRAP value> == "YES"`."""
+    p = ctx.p
+    fr = host_data(p)
+    wv = _wrap_var(fr)
+    site = READ + "#engine-for-wrapped"
+    if wv is None:
+        ctx.undecided("DATA.ENGINE-SELECT", site, fr, fr.node, "the ~Version WRAP value is not held in a plain variable")
+        return
+    sets = [s_ for s_ in walk_shallow(fr.node) if isinstance(s_, ast.Assign) and any(isinstance(t, ast.Name) and t.id == "engine" for t in s_.targets)
+            and isinstance(s_.value, ast.Constant) and s_.value.value == "normal"]
+    if not sets:
+        ctx.undecided("DATA.ENGINE-SELECT", site, fr, fr.node, "no `engine = \"normal\"` switch in the data-section code")
+        return
+    ok = False
+    for s_ in sets:
+        cur = getattr(s_, "_parent", None)
+        while cur is not None and cur is not fr.node:
+            if isinstance(cur, ast.If):
+                t = cur.test
+
+                def operands(e):
+                    # operands of the and/or structure of the test (a negation hides its operand)
+                    if isinstance(e, ast.BoolOp):
+                        out_ = []
+                        for v in e.values:
+                            out_ += operands(v)
+                        return out_
+                    return [e]
+                for c in operands(t):
+                    if isinstance(c, ast.Compare) and len(c.ops) == 1 and isinstance(c.ops[0], ast.Eq):
+                        sides = [c.left, c.comparators[0]]
+                        if any(isinstance(x, ast.Name) and x.id == wv for x in sides) and any(
+                                isinstance(x, ast.Constant) and x.value == "YES" for x in sides):
+                            ok = True
+            cur = getattr(cur, "_parent", None)
+    ctx.check(ok, "DATA.ENGINE-SELECT", site, fr, sets[0], "WRAP == YES forces the reference engine",
+              "the switch to the reference engine no longer depends on `%s == \"YES\"`: a wrapped file whose physical lines all hold the "
+              "same number of values is read by the fast engine with every line as a row (wrong curve lengths, extra curves)" % wv)
+    ctx.floor("DATA.ENGINE-SELECT", 1)
